@@ -83,7 +83,7 @@ def statements(tier):
             d2 += [ew("+", L, Z), ew("+", Z, L), ew("-", L, Z), ew("-", Z, L), ew("*", L, Z), ew("*", Z, L)]
         d2 += [un("twice", L), un("neg", L), un("abs", L), un("sqrtabs", L), un("half", L)]
         # the destination inside an element-wise sub-expression next to the evaluation-requiring term
-        for Zw in (un("abs", Dd), ew("*", Dd, Cc), un("twice", Dd), ew("*", Dd, Dd)):
+        for Zw in (un("abs", Dd), ew("*", Dd, Cc), ew("*", Cc, Dd), un("twice", Dd), ew("*", Dd, Dd)):
             d2 += [ew("+", L, Zw), ew("-", Zw, L), ew("-", L, Zw)]
     for s in S1:
         for Z in (Cc, Dd):
@@ -175,7 +175,8 @@ def cases(tier, cfg):
             if tier == "thorough" and (k == 5 or not main):
                 pats = [p for i, p in enumerate(pats) if (i % (4 if main else 8)) == 0] if k >= 4 else pats
             for pat in pats:
-                for form, op in ((0, "="), (1, "+=")) if (k <= 3 or tier == "thorough" and main) else ((0, "="),):
+                forms3 = ((0, "="), (1, "+="), (2, "-="))
+                for form, op in forms3 if (k <= 3 or tier == "thorough" and main) else (forms3[(sum(pat) + k) % 3],):
                     ops_t = "; ".join(f"using M{i} = Fastor::Tensor<{ct},{pat[i]},{pat[i + 1]}>" for i in range(k))
                     chain = " % ".join(f"(*static_cast<const K::M{i}*>(ops[{i}]))" for i in range(k))
                     sizes = ",".join(f"sizeof(K::M{i})" for i in range(k)) + ",0" * (6 - k)
@@ -184,7 +185,7 @@ def cases(tier, cfg):
                             f"static FX_NOINLINE void call(void* D, const void* const* ops) {{ using namespace Fastor; fx::escape(D); fx::escape(ops); "
                             f"(*static_cast<MD*>(D)) {op} {chain}; fx::clobber(); }} }}; "
                             f"c09::CJob<{ct}> j{{{k},{{{ext}}},{{{sizes}}},sizeof(K::MD),{form},&K::call}}; c09::run_chain<{ct}>(fx, j);")
-                    out.append(Case(f"C09/chain[f64|k={k}|ext={'x'.join(map(str, pat))}|form={'assign' if form == 0 else 'add'}]", body,
+                    out.append(Case(f"C09/chain[f64|k={k}|ext={'x'.join(map(str, pat))}|form={('assign', 'add', 'sub')[form]}]", body,
                                     route=f"chain.k{k}", cost=0.25 + 0.08 * k))
     return out
 
